@@ -107,9 +107,24 @@ def clobber(node, post, fresh):
     return post
 
 
+def reached_nodes(nodes):
+    """nodes the graph reaches from an entry: code the tool's dead-code pass has cut off has no executions (and no
+    predecessor to tell which service an ecall is)"""
+    reached, todo = set(), [i for i, n in enumerate(nodes) if n["kind"] in ("program_entry", "func_entry")]
+    while todo:
+        i = todo.pop()
+        if i not in reached:
+            reached.add(i)
+            todo += [m for m in nodes[i]["nexts"] if m >= 0]
+    return reached
+
+
 def vcs_for(nodes):
     out, decls = [], []
+    reached = reached_nodes(nodes)
     for idx, n in enumerate(nodes):
+        if idx not in reached:
+            continue
         cnt = [0]
 
         def fresh():
@@ -172,6 +187,11 @@ def interprocedural_failures(nodes):
             if missing:
                 bad.append("call '%s': the callee's argument registers %s are not live before the call" % (n["text"], missing))
         if n["kind"] == "func_entry":
+            for c in nodes:
+                if c.get("call") and c.get("callee", -1) == idx:
+                    missing = sorted((set(c["live_out"]) & set(RETURN_REGS)) - set(n.get("frets", RETURN_REGS)))
+                    if missing:
+                        bad.append("call '%s': the caller reads %s after the call but Function::returns() of the callee does not contain them" % (c["text"], missing))
             missing = sorted((set(n["live_out"]) & set(ARG_REGS)) - set(n.get("fargs", n["live_out"])))
             if missing:
                 bad.append("function entry: registers %s are live into the body but missing from Function::arguments()" % missing)
@@ -191,11 +211,15 @@ def run(programs):
     t0 = time.time()
     exe = e4.build()
     os.makedirs(os.path.join(e4.WORK, "e5"), exist_ok=True)
-    inp = os.path.join(e4.WORK, "e5", "programs.txt")
+    inp = os.path.join(e4.WORK, "e5", "programs_%d.txt" % os.getpid())
     with open(inp, "w") as f:
         f.write("\n----\n".join(p["text"].rstrip("\n") for p in programs) + "\n")
     p = subprocess.run([exe, inp], stdout=subprocess.PIPE, stderr=subprocess.PIPE, text=True, timeout=600)
     outs = [json.loads(l) for l in p.stdout.strip().split("\n") if l.strip()]
+    try:
+        os.remove(inp)
+    except OSError:
+        pass
     results, items, meta = [], [], []
     for prog, o in zip(programs, outs):
         r = {"name": prog["name"], "text": prog["text"], "failed": [], "queries": 0, "claims": 0}
